@@ -136,7 +136,7 @@ func sampleInput(r *rand.Rand, ns int64) string {
 }
 
 func c06Gen(r *rand.Rand, tier string) []string {
-	nLine, nStr, nQueue, nJSON, nProc := 500, 120, 60, 40, 2
+	nLine, nStr, nQueue, nJSON, nProc := 500, 120, 60, 40, 3
 	nSeq, nLate, nFile, nFail, nEngine := 60, 40, 6, 16, 24
 	if tier == "thorough" {
 		nLine, nStr, nQueue, nJSON, nProc = 40000, 8000, 4000, 3000, 36
@@ -175,6 +175,9 @@ func c06Gen(r *rand.Rand, tier string) []string {
 		g, q := gs[r.Intn(3)], qs[r.Intn(3)]
 		if r.Intn(6) == 0 {
 			g, q = 1+r.Intn(40), 1+r.Intn(300)
+		}
+		if agg == "phout" && r.Intn(8) == 0 {
+			q = 0 // unbuffered channel: Report completes together with the aggregator's receive
 		}
 		k := []int{1, 2, 7, 40, 150}[r.Intn(5)]
 		if g*k > 3000 {
@@ -228,6 +231,13 @@ func c06Gen(r *rand.Rand, tier string) []string {
 		out = append(out, fmt.Sprintf("kind=engine agg=%s pools=%d inst=%d ammo=%d per=%d q=%d slow=%d cancel=%d seed=%d",
 			agg, pools, inst, ammo, per, q, []int{0, 200, 1500}[r.Intn(3)], cancel, r.Intn(1<<20)))
 	}
+	// few ammo, many instances started one by one, slow shoots: instances run out of ammo and finish while others
+	// are still being started or are in their only shoot
+	for i := 0; i < nEngine/4; i++ {
+		agg := []string{"phout", "jsonlines"}[r.Intn(2)]
+		out = append(out, fmt.Sprintf("kind=engine agg=%s pools=1 inst=%d ammo=%d per=%d q=64 slow=%d cancel=-1 seed=%d startrps=%d",
+			agg, []int{4, 8, 12}[r.Intn(3)], 1+r.Intn(3), 1+r.Intn(2), []int{2000, 4000}[r.Intn(2)], r.Intn(1<<20), []int{1000, 2500}[r.Intn(2)]))
+	}
 	for i := 0; i < nJSON; i++ {
 		n := 1 + r.Intn(6)
 		q := n + r.Intn(4)
@@ -235,6 +245,60 @@ func c06Gen(r *rand.Rand, tier string) []string {
 			n, q = 5+r.Intn(200), 1+r.Intn(8)
 		}
 		out = append(out, fmt.Sprintf("kind=json n=%d q=%d seed=%d", n, q, r.Intn(1<<30)))
+	}
+	if tier == "thorough" {
+		// exhaustive small enumerations
+		// (a) every small shape of reporters × samples × queue, both aggregators, end-of-run and mid-run cancel, 3 schedules each
+		for _, agg := range []string{"phout", "jsonlines"} {
+			for g := 1; g <= 3; g++ {
+				for k := 1; k <= 3; k++ {
+					for q := 0; q <= 4; q++ {
+						if q == 0 && agg != "phout" {
+							continue // validate:"min=1"
+						}
+						for jit := 0; jit < 3; jit++ {
+							out = append(out, fmt.Sprintf("kind=queue agg=%s g=%d k=%d q=%d flush=0 buf=0 wrap=0 jit=%d", agg, g, k, q, jit))
+							ql := q
+							if agg == "phout" {
+								ql = g * k
+							}
+							out = append(out, fmt.Sprintf("kind=queue agg=%s g=%d k=%d q=%d flush=0 buf=0 wrap=0 jit=%d late=1", agg, g, k, ql, jit))
+						}
+					}
+				}
+			}
+		}
+		// (b) every millisecond of the first 1.1 s after the epoch (panic / ".123" / regular), and every
+		// digit-count boundary of the millisecond counter with the three-digit part at its extremes
+		for ms := 0; ms <= 1100; ms++ {
+			out = append(out, fmt.Sprintf("kind=str ns=%d tag=74 sid=7 f=1,2,3,4,5,6,7,8,9,10 via=api", int64(ms)*1_000_000+int64(r.Intn(1_000_000))))
+		}
+		p10 := int64(1000)
+		for d := 4; d <= 18; d++ {
+			p10 *= 10
+			for _, ms := range []int64{p10 - 1001, p10 - 1000, p10 - 999, p10 - 1, p10, p10 + 1, p10 + 999, p10 + 1000} {
+				if ms > math.MaxInt64/1_000_000 {
+					continue
+				}
+				out = append(out, fmt.Sprintf("kind=line id=%d ns=%d tag=74 sid=7 f=1,2,3,4,5,6,7,8,9,10 via=api", d%2, ms*1_000_000+999_999))
+			}
+		}
+		// (c) every engine shape with 1..3 instances × 0..4 ammo × 1..2 reports per shoot, natural end and every cancel position
+		for _, agg := range []string{"phout", "jsonlines"} {
+			for inst := 1; inst <= 3; inst++ {
+				for ammo := 0; ammo <= 4; ammo++ {
+					for per := 1; per <= 2; per++ {
+						for cancel := -1; cancel <= ammo; cancel++ {
+							if cancel == 0 {
+								continue
+							}
+							out = append(out, fmt.Sprintf("kind=engine agg=%s pools=1 inst=%d ammo=%d per=%d q=%d slow=%d cancel=%d seed=%d",
+								agg, inst, ammo, per, 1+ammo*per, []int{0, 300}[r.Intn(2)], cancel, r.Intn(1<<20)))
+						}
+					}
+				}
+			}
+		}
 	}
 	if !raceEnabled {
 		for i := 0; i < nProc; i++ {
